@@ -1,8 +1,8 @@
 """C17 formatting never changes a program's meaning."""
-REG_DRAFT = dict(
+REG = dict(
     engine='E1-enum',
     technique='bounded-exhaustive enumeration of syntax trees x layouts (every <=k-gap deviation from the canonical layout over an 8-separator alphabet, string-literal content variants), differential oracle on the real formatter and the real parser',
-    text='Every tree of a depth-1/depth-2 production set and of a definition-level item set (signatures swept across the 100-column wrap limit, methods, enums, structs, tests, imports, doc comments, item pairs) is rendered under every layout with <=1 (quick) / <=2 (thorough, on the representative subset) gaps deviating from the canonical layout, gap alphabet {glued, 1 space, 3 spaces, newline, newline+indent, blank lines, line comment, tab}, and with every string literal (each literal position, and all at once) replaced by multi-line / brace-at-line-start / `//` / blank-line contents. Layouts the real parser does not map to the same tree are dropped and counted. Oracle: the formatter output parses without errors to the same tree (Debug form, ids/positions/comma positions blanked: identifiers, literal values, string contents, doc comments), has the same ordered comment texts, and differs from the input only in whitespace and commas. Exhaustive within these bounds.',
+    text='Programs: quick = every production over 5 leaves (1906 depth-1 trees), a reduced depth-2 set (1281 trees over 7 representative children), 58 representatives incl. a string literal in every literal position, and a definition-level set of 682 programs (function/method signatures whose line length is swept across the 100-column wrap limit with 0-3 parameters, every item kind with optional parts on/off, doc comments, all ordered pairs of 12 items); thorough = the full C33 depth-1 (8483) and depth-2 (64774) sets and 2202 definition programs (lengths 95-107, 0-5 parameters). Each program is rendered under every layout with <=1 gap (thorough: <=2 gaps for the representative, string-variant-of-representative and small-definition groups) deviating from the canonical layout, gap alphabet {glued, 1 space, 3 spaces, newline, newline+indent, blank lines, line comment, tab} incl. the gaps before the first and after the last token, and with every string literal (each literal position, and all at once) replaced by multi-line / brace-at-line-start / `//` / blank-line contents. Layouts the real parser does not map to the canonical tree are dropped and counted. Oracle on format(layout): parses without errors; structurally equal tree (the parser\'s own structural equality: identifiers, literal values, string contents, doc comments; positions, ids and comma positions ignored), same ordered comment texts, and the same text once whitespace and commas are erased. Exhaustive within these bounds.',
     note='The parser is trusted as the judge of "same tree" on both sides (it is checked against the printer by C33). Layouts with more simultaneous deviations than the bound, gap separators outside the alphabet (CR, form feed, block comments do not exist) and trees deeper than the sets are not covered.',
     design_ref='DESIGN.md §6 C17 / C18',
 )
@@ -197,6 +197,8 @@ def run(ctx):
     if status.get("tree-changed", 0) == 0 or status.get("parse-error", 0) == 0:
         raise Machinery("no layout was rejected by the parser: the layout classifier is not looking at the real parse")
     ctx.add(states=n_same, transitions=n_jobs + cache.jobs + n_tree_jobs, nontrivial=n_changed)
+    ctx.sample({"group": "depth1", "kind": "If", "deviation": "glued", "src": "if x{\n  -3\n}\n", "formatted": "if x {\n  -3\n}\n"})
+    ctx.sample({"group": "string-variants", "kind": "Let", "deviation": "comment", "src": "let v = \"a\n  x\" // c\n", "oracle": "tree, comments and text modulo whitespace/commas of format(src) vs src"})
     ctx.bound("gap alphabet", [layout.GAP_NAME[g] for g in layout.GAPS])
     ctx.bound("string contents", ["plain"] + [n for n, _ in layout.STR_VARIANTS])
     ctx.assume("the real parser decides whether a layout denotes the same tree as the canonical text; layouts it maps to another tree or rejects are outside the explored set (counted under layout:*)")
